@@ -366,7 +366,7 @@ class P_xcfg(StructureParser):
         for a in stru:
             if p_allUzero and numpy.any(a.U != 0.0):
                 p_allUzero = False
-            if not numpy.all(a.U == a.U[0, 0] * numpy.identity(3)):
+            if stru.lattice.isanisotropic(a.U):
                 p_allUiso = False
                 # here p_allUzero must be false
                 break
